@@ -139,3 +139,22 @@ Definition boost_lookup (types : list ptype) (scripts targets : list bytes) (k :
 
 Definition boost_keys (types : list ptype) (scripts targets : list bytes) : list bytes :=
   dedup [] (map fst (boost_writes types scripts targets)).
+
+(* ---- the listing itself: os.ReadDir returns the entries sorted by file name (byte-wise string order) ---- *)
+Fixpoint bytes_leb (a b : bytes) : bool :=
+  match a, b with
+  | [], _ => true
+  | _ :: _, [] => false
+  | x :: a', y :: b' => if N.ltb x y then true else if N.eqb x y then bytes_leb a' b' else false
+  end.
+
+Fixpoint insert_name (x : bytes) (l : list bytes) : list bytes :=
+  match l with
+  | [] => [x]
+  | y :: r => if bytes_leb x y then x :: l else y :: insert_name x r
+  end.
+
+Definition sort_names (l : list bytes) : list bytes := fold_right insert_name [] l.
+
+(* the analysis of a directory whose entries were created / are stored in any order *)
+Definition analyze_names (names : list bytes) : list ptype := detect (sort_names names).
